@@ -143,8 +143,8 @@ def build_record(spec):
             pfam_hits.append(hmmer.HmmerHit(location=str(loc), label="PFtest", locus_tag=gene.get_name(), domain="p450",
                                             evalue=1e-10, score=55.5, identifier="PF00067.1", description="a domain",
                                             protein_start=2, protein_end=9, translation=gene.translation[2:9]))
-        hmmer.HmmerResults(rec.id, 0.01, 10.0, "/nonexistent/31.0/Pfam-A.hmm", "fullhmmer", pfam_hits).add_to_record(rec)
-    if "nrps" in extras and rec.get_regions():
+        hmmer.HmmerResults(rec.id, 0.01, 10.0, "/nonexistent/pfam/31.0/Pfam-A.hmm", "fullhmmer", pfam_hits).add_to_record(rec)
+    if "nrps" in extras and rec.get_cds_features_within_regions():
         nrps_results(rec).add_to_record(rec)
     if "prepeptide" in extras:
         gene = rec.get_cds_features()[0]
@@ -187,30 +187,53 @@ def nrps_results(rec):
         domain_identification.get_database_path = saved_path
 
 
+def _loc(location):
+    """location text with 'no strand' and 'forward' identified for single-strand-less areas (GenBank cannot tell them apart)"""
+    text = str(location)
+    if location.strand is None and "(" not in text:
+        if "{" in text:
+            return text.replace("]", "](+)")
+        return text + "(+)"
+    return text
+
+
+def _transcript(location):
+    out = []
+    for part in location.parts:
+        rng = list(range(int(part.start), int(part.end)))
+        if part.strand == -1:
+            rng.reverse()
+        out.extend(rng)
+    return out
+
+
 def describe(rec):
     """canonical, comparison-friendly description of a secmet record"""
     bio = rec.to_biopython()
     features = []
     for feat in bio.features:
         quals = {k: list(v) if isinstance(v, (list, tuple)) else v for k, v in sorted(feat.qualifiers.items())}
-        features.append((feat.type, str(feat.location), sorted((k, tuple(v) if isinstance(v, list) else v) for k, v in quals.items())))
+        features.append((feat.type, _loc(feat.location), sorted((k, tuple(v) if isinstance(v, list) else v) for k, v in quals.items())))
     structure = {
-        "protoclusters": [(p.get_protocluster_number(), str(p.location), str(p.core_location), p.product, p.tool,
+        "protoclusters": [(p.get_protocluster_number(), _loc(p.location), _loc(p.core_location), p.product, p.tool,
                            sorted(c.get_name() for c in p.definition_cdses),
                            _parent_number(p))
                           for p in rec.get_protoclusters()],
-        "candidates": [(c.get_candidate_cluster_number(), str(c.location), str(c.kind),
+        "candidates": [(c.get_candidate_cluster_number(), _loc(c.location), str(c.kind),
                         [p.get_protocluster_number() for p in c.protoclusters]) for c in rec.get_candidate_clusters()],
-        "subregions": [(s.get_subregion_number(), str(s.location), s.tool, s.label) for s in rec.get_subregions()],
-        "regions": [(r.get_region_number(), str(r.location), [c.get_candidate_cluster_number() for c in r.candidate_clusters],
+        "subregions": [(s.get_subregion_number(), _loc(s.location), s.tool, s.label) for s in rec.get_subregions()],
+        "regions": [(r.get_region_number(), _loc(r.location), [c.get_candidate_cluster_number() for c in r.candidate_clusters],
                      [s.get_subregion_number() for s in r.subregions], sorted(c.get_name() for c in r.cds_children))
                     for r in rec.get_regions()],
         "gene_functions": [(g.get_name(), sorted(str(f) for f in g.gene_functions)) for g in rec.get_cds_features()],
-        "modules": [(str(m.location), m.type if hasattr(m, "type") else "", [d.get_name() for d in m.domains], m.is_complete())
-                    for m in rec.get_modules()],
+        # the record keeps modules in insertion order, which carries no meaning: compared as a sorted list
+        "modules": sorted((str(m.location), m.type if hasattr(m, "type") else "", [d.get_name() for d in m.domains], m.is_complete())
+                          for m in rec.get_modules()),
         "domains": sorted((d.get_name(), str(d.location)) for d in rec.get_antismash_domains()),
         "pfams": sorted((d.get_name(), str(d.location), d.identifier) for d in rec.get_pfam_domains()),
-        "motifs": sorted((m.get_name(), str(m.location), type(m).__name__) for m in rec.get_cds_motifs()),
+        # motif locations are compared by the bases they cover in transcript order: a precursor peptide is rebuilt from its
+        # leader/core/tail pieces, which may partition the same bases differently
+        "motifs": sorted((m.get_name(), tuple(_transcript(m.location)), m.location.strand, type(m).__name__) for m in rec.get_cds_motifs()),
     }
     return {"seq": str(rec.seq), "topology": "circular" if rec.is_circular() else "linear", "id": rec.id,
             "features": sorted(features, key=repr), "structure": structure}
